@@ -90,6 +90,7 @@ def _tlc_phase(seed, sl, timeout, workers):
         j = sl.jets
         pool = JetPool(sl.terminals, j["mode"], ndir=j.get("ndir", 0), seeds=j.get("seeds"), nenv=sl.nenv, seed=seed + hash_name(sl.name), tiny=True, complex_env=sl.complex_env, opts=j.get("opts"))
         pool.gateaux = j.get("gateaux", [])
+        pool.seed_term = j.get("seed_term")
     else:
         pool = Pool(sl.terminals, nenv=sl.nenv, seed=seed + hash_name(sl.name), complex_env=sl.complex_env, small=sl.small, square_gram=sl.square_gram, tiny=sl.tiny)
     for src, img in sl.replacements:
